@@ -3,8 +3,8 @@
 package main
 
 import (
-	"sort"
 	"fmt"
+	"sort"
 	"strings"
 
 	"github.com/Syuparn/pangaea/object"
